@@ -191,6 +191,8 @@ func (h2) Gen(prop, tier string, r *simrt.Rng) (any, simrt.Config) {
 
 func (h2) NonTrivial(prop string, env *Env, st simrt.Stats) bool {
 	switch prop {
+	case "C04":
+		return env.Cover["h2.model_checked"] > 0 && env.Cover["h2.bodies"] >= 2
 	case "C02":
 		return env.Cover["h2.conservation_checked"] > 0 && (env.Cover["h2.superseded_ticks"] > 0 || env.Cover["h2.stop_with_pending"] > 0 || env.Cover["h2.model_checked"] > 0)
 	}
@@ -208,21 +210,35 @@ type h2ModelOut struct {
 }
 
 func h2Model(c *H2Cfg, tickAt []int64, stopAt int64) h2ModelOut {
+	sizes := make([]int, len(c.Ticks))
+	for i, t := range c.Ticks {
+		sizes[i] = t.N
+	}
+	return poolModel(c.Concurrency, c.MaxIterations, sizes, c.BodyNs, tickAt, stopAt)
+}
+
+// poolModel: conc servers; tick i at tickAt[i] replaces whatever is pending by sizes[i] requests (the
+// replaced ones are dropped); a free server starts a pending request at once; the k-th started request
+// takes bodyNs[k mod len]; at stopAt (>= 0) pending requests are dropped; when a server would start request
+// number maxIter+1 everything pending is discarded silently and nothing starts any more.
+func poolModel(conc int, maxIter uint64, sizes []int, bodyNs []int64, tickAt []int64, stopAt int64) h2ModelOut {
 	var out h2ModelOut
 	out.perTick = make([]uint64, len(tickAt))
 	pending := 0
 	var busy []int64 // completion instants
-	idle := c.Concurrency
+	idle := conc
 	limited := false
 	startOne := func(now int64) bool {
-		if c.MaxIterations > 0 && uint64(out.started) >= c.MaxIterations {
-			// the worker that takes the next job finds the limit reached: everything pending is discarded silently
+		if maxIter > 0 && uint64(out.started) >= maxIter {
 			pending = 0
 			limited = true
 			out.limitHit = true
 			return false
 		}
-		d := c.BodyNs[out.started%len(c.BodyNs)]
+		d := int64(0)
+		if len(bodyNs) > 0 {
+			d = bodyNs[out.started%len(bodyNs)]
+		}
 		out.started++
 		pending--
 		idle--
@@ -256,15 +272,17 @@ func h2Model(c *H2Cfg, tickAt []int64, stopAt int64) h2ModelOut {
 		if limited {
 			break
 		}
-		out.perTick[i] = uint64(pending)
-		out.dropped += uint64(pending)
-		pending = c.Ticks[i].N
+		if pending > 0 {
+			out.perTick[i] = uint64(pending)
+			out.dropped += uint64(pending)
+		}
+		pending = max(sizes[i], 0)
 		drain(at)
 	}
 	if stopAt >= 0 {
 		advance(stopAt)
 	}
-	if !limited {
+	if !limited && pending > 0 {
 		out.stopDrop = uint64(pending)
 		out.dropped += uint64(pending)
 	}
@@ -402,6 +420,11 @@ func (h h2) Run(env *Env, cfg any) {
 		}
 		if !tie {
 			mo := h2Model(c, tickAt, stopAt)
+			if uint64(mo.started) > started {
+				// an ideal pool starts more: some worker stayed idle although requests were pending
+				env.Violate("C04", "worker-idle-with-pending-requests", "pool/model", "started %d iterations; a %d-worker pool that uses every idle worker starts %d with the same ticks and body durations (dropped %d vs %d)",
+					started, c.Concurrency, mo.started, dropped, mo.dropped)
+			}
 			if uint64(mo.started) != started || mo.dropped != dropped {
 				env.Violate("C02", "differs-from-reference-pool", "pool/model", "started %d dropped %d; an ideal %d-worker pool with the same ticks and body durations starts %d and drops %d (limit %d reached=%v/%v, stop at %s)",
 					started, dropped, c.Concurrency, mo.started, mo.dropped, c.MaxIterations, sh.limitReached, mo.limitHit, dur(stopAt))
